@@ -45,6 +45,12 @@ func VerifHTMLSharedState(n int) {
 	if vBool("inlineparam") {
 		params = map[string]string{"inline": "1"}
 	}
-	in := verifSharedInput(n, verifHTMLDocs)
+	in := verifSharedInput(n, verifHTMLSharedDocs)
 	verifNoSharedWrite(in, func(w *vWriter, r *vReader) error { return o.Minify(m, w, r, params) })
 }
+
+var verifHTMLSharedDocs = append([]string{
+	`<!--[if IE]>x<![endif]--><p class="">a  b</p><!-- c -->`,
+	`<!--[if lt IE 9]><ul><li>a</li><li>b</li></ul><script>var = ;</script><![endif]--><!--# include x --><ul><li>a</li></ul>`,
+	`<a href="http://x/y" style="color:red" onclick="javascript:f()">l</a><svg><path d="M0 0"/></svg><math><mi>x</mi></math><pre> a </pre><textarea> b </textarea>`,
+}, verifHTMLDocs...)
